@@ -1,16 +1,231 @@
 /-
-C13 — SP3 orbit files (first instalment; extended below)
+C13 — SP3 orbit files are parsed into exactly the positions, clocks and epochs given.
+
+Property theorems about `Model/Sp3.lean` at the tables regenerated from `midgard/parsers/sp3.py`
+(`Generated/Sp3Cols.lean`), compared with `Spec/Sp3.lean` (SP3-c / SP3-d).
 -/
 import Midgard.Model.Sp3
 import Midgard.Generated.Sp3Cols
+import Midgard.Spec.Sp3
 import Midgard.Proofs.FixedCol
 
 namespace Midgard.Props.C13
-open Midgard.Sp3 Midgard.Generated.Sp3 Midgard.FixedCol
+open Midgard.Sp3 Midgard.Generated.Sp3 Midgard.FixedCol Midgard.Text Midgard.Decimal
+
+/-! ## 1. Table obligations -/
 
 theorem layouts_sorted : Sorted recP = true ∧ Sorted recV = true ∧ (headerDefs.all fun d => Sorted d.fields) = true := by
   decide +kernel
 
+/-- **columns = standard**: every header and record table of the parser is the standard's -/
+theorem cols_eq_spec :
+    recP = Midgard.Spec.Sp3.recP ∧ recV = Midgard.Spec.Sp3.recV ∧
+    headerDefs = [⟨"#c", Midgard.Spec.Sp3.firstLine, .string⟩, ⟨"#d", Midgard.Spec.Sp3.firstLine, .string⟩,
+                  ⟨"##", Midgard.Spec.Sp3.secondLine, .string⟩, ⟨"%c", Midgard.Spec.Sp3.percentC, .string⟩,
+                  ⟨"%f", Midgard.Spec.Sp3.percentF, .float⟩] ∧
+    epochFields = [Option.none, some "year", some "month", some "day", some "hour", some "minute", some "second"] := by
+  decide +kernel
+
+/-- **unit factors**: kilometres ↦ metres ×1000, microseconds ↦ seconds ×10⁻⁶, millimetres ×10⁻³,
+picoseconds ×10⁻¹², the speed of light 299 792 458 m/s — and `_parse_position` refers to exactly
+these (each once, `constant.c` twice) -/
+theorem unit_factors :
+    factors = ⟨1000, mkRat 1 1000000, mkRat 1 1000, mkRat 1 1000000000000, 299792458⟩ ∧
+    unitsUsed.length = 6 ∧ unitsUsed.count "constant.c" = 2 ∧
+    (["Unit.kilometer2meter", "Unit.microsecond2second", "Unit.millimeter2meter", "Unit.picosecond2second"].all
+      fun u => unitsUsed.count u == 1) = true := by
+  decide +kernel
+
+/-! ## 2. One position record -/
+
+/-- what the statement says a record must become -/
+def expectedEntry (F : Factors) (basePos baseClk : Rat) (e : Epoch) (sat : Str) (x y z clk : Rat)
+    (codes : List (Option Nat)) (clkCode : Option Nat) : Entry :=
+  ⟨e, sat,
+   [x, y, z].map (fun q => if q = 0 then Option.none else some (q * F.km2m)),
+   (if clk = 999999.999999 then Option.none else some (clk * F.us2s * F.c)),
+   codes.map (fun c => c.map fun k => basePos ^ k * F.mm2m),
+   clkCode.map (fun k => baseClk ^ k * (F.ps2s * F.c)),
+   sat.take 1⟩
+
+theorem powCode_nat (b : Rat) (k : Nat) : powCode b (k : Rat) = some (b ^ k) := by
+  simp [powCode, Rat.den_natCast, Rat.num_natCast]
+
+/-- accuracy column ↦ sigma: blank ↦ NaN, code `k` ↦ `base^k · unit` -/
+def sigmaOf (base unit : Rat) (t : Str) : Option (Option Rat) :=
+  if t.isEmpty then some Option.none
+  else (parseFloat t).bind fun code => (powCode base code).map fun p => some (p * unit)
+
+theorem sigma_blank (base unit : Rat) : sigmaOf base unit [] = some Option.none := rfl
+
+theorem sigma_code (base unit : Rat) (t : Str) (k : Nat) (hne : t ≠ []) (h : parseFloat t = some (k : Rat)) :
+    sigmaOf base unit t = some (some (base ^ k * unit)) := by
+  unfold sigmaOf
+  have : t.isEmpty = false := by cases t <;> simp_all
+  simp [this, h, powCode_nat]
+
+/-- **pos_record**: from the field texts of a `P` line to the delivered entry — kilometres ×1000,
+microseconds × 10⁻⁶ × c, `0.000000` ↦ NaN, `999999.999999` ↦ NaN, blank accuracy code ↦ NaN,
+code `k` ↦ `base^k` millimetres / picoseconds -/
+theorem pos_record (F : Factors) (m : Meta) (e : Epoch) (vs : List (String × Str)) (v : Str)
+    (basePos baseClk x y z clk : Rat) (codes : List (Option Nat)) (clkCode : Option Nat)
+    (hv : mget m "version" = some (.str v)) (hva : v ≠ ['a'])
+    (hbp : mget m "base_posvel" = some (.num basePos)) (hbc : mget m "base_clkrate" = some (.num baseClk))
+    (hx : parseFloat (get vs "pos_x") = some x) (hy : parseFloat (get vs "pos_y") = some y)
+    (hz : parseFloat (get vs "pos_z") = some z) (hc : parseFloat (get vs "clk_bias") = some clk)
+    (hs : ["sig_pos_x", "sig_pos_y", "sig_pos_z"].map (fun k => sigmaOf basePos F.mm2m (get vs k)) =
+          codes.map (fun c => some (c.map fun k => basePos ^ k * F.mm2m)))
+    (hsc : sigmaOf baseClk (F.ps2s * F.c) (get vs "sig_clk_bias") = some (clkCode.map fun k => baseClk ^ k * (F.ps2s * F.c)))
+    (hlen : codes.length = 3) :
+    parsePosition F m e vs = some (expectedEntry F basePos baseClk e (get vs "sat") x y z clk codes clkCode) := by
+  match codes, hlen with
+  | [c1, c2, c3], _ =>
+    simp only [List.map_cons, List.map_nil, List.cons.injEq, and_true] at hs
+    obtain ⟨h1, h2, h3⟩ := hs
+    unfold sigmaOf at h1 h2 h3 hsc
+    unfold parsePosition positionCore
+    simp only [hv, hbp, hbc, hva, if_false, List.mapM_cons, List.mapM_nil, hx, hy, hz, hc, Option.pure_def,
+      Option.bind_eq_bind, Option.bind_some, Option.map_some, h1, h2, h3, hsc, expectedEntry, List.map_cons, List.map_nil]
+
+/-- a concrete record with all three sentinels (base 1.25 / 1.025) -/
+example :
+    parsePosition factors [("version", .str ['d']), ("base_posvel", .num 1.25), ("base_clkrate", .num 1.025)]
+      ⟨2016, 3, 1, 0, 0, 0⟩
+      (sliceAll recP "PG04  25398.213954      0.000000   4188.487313 999999.999999  7     4".toList) =
+    some ⟨⟨2016, 3, 1, 0, 0, 0⟩, "G04".toList, [some 25398213.954, Option.none, some 4188487.313], Option.none,
+          [some ((1.25 : Rat) ^ 7 / 1000), Option.none, some ((1.25 : Rat) ^ 4 / 1000)], Option.none, ['G']⟩ := by
+  decide +kernel
+
+/-! ## 3. Blocks: one entry per `P` record, in file order, with the epoch of the enclosing `*` line -/
+
+/-- the entries a list of block lines contributes -/
+def entriesOf (F : Factors) (m : Meta) (recP : Layout) (e : Epoch) (ls : List Str) : List Entry :=
+  ls.filterMap fun l => if l.take 1 = ['P'] then parsePosition F m e (sliceAll recP l) else Option.none
+
+theorem fold_stepLine (F : Factors) (m : Meta) (recP : Layout) (e : Epoch) (ls : List Str) :
+    ∀ acc : List Entry, (∀ l ∈ ls, l ≠ []) →
+      (∀ l ∈ ls, l.take 1 = ['P'] → (parsePosition F m e (sliceAll recP l)).isSome = true) →
+      ls.foldlM (stepLine F m recP (some e) false) acc = some (acc ++ entriesOf F m recP e ls) := by
+  induction ls with
+  | nil => intro acc _ _; simp [entriesOf]
+  | cons l ls ih =>
+    intro acc hne hok
+    have hl : l ≠ [] := hne l (by simp)
+    have hempty : l.isEmpty = false := by cases l <;> simp_all
+    simp only [List.foldlM_cons]
+    by_cases hp : l.take 1 = ['P']
+    · have := hok l (by simp) hp
+      obtain ⟨en, hen⟩ := Option.isSome_iff_exists.mp this
+      have hstep : stepLine F m recP (some e) false acc l = some (acc ++ [en]) := by
+        simp [stepLine, hp, hen]
+      rw [hstep]
+      simp only [Option.bind_eq_bind, Option.bind_some]
+      rw [ih (acc ++ [en]) (fun l' h' => hne l' (by simp [h'])) (fun l' h' => hok l' (by simp [h']))]
+      simp [entriesOf, hp, hen]
+    · have hstep : stepLine F m recP (some e) false acc l = some acc := by
+        simp [stepLine, hp, hempty]
+      rw [hstep]
+      simp only [Option.bind_eq_bind, Option.bind_some]
+      rw [ih acc (fun l' h' => hne l' (by simp [h'])) (fun l' h' => hok l' (by simp [h']))]
+      simp [entriesOf, hp]
+
+/-- **file_roundtrip (per block)**: a block `* epoch` followed by `P`, `V`, `EP`, `EV` … lines adds exactly
+one entry per `P` line, in order, each carrying the epoch of that `*` line; everything else is ignored.
+(`hfresh`: the epoch is not already present — duplicate epochs are outside "well-formed".) -/
+theorem block_entries (F : Factors) (m : Meta) (ef : List (Option String)) (recP : Layout) (acc : List Entry)
+    (l1 : Str) (rest : List Str) (e : Epoch)
+    (hstar : l1.take 1 = ['*']) (he : parseDate ef (strip l1) = some e)
+    (hfresh : acc.any (·.epoch = e) = false)
+    (hne : ∀ l ∈ rest, l ≠ [])
+    (hok : ∀ l ∈ rest, l.take 1 = ['P'] → (parsePosition F m e (sliceAll recP l)).isSome = true) :
+    parseBlock F m ef recP acc (l1 :: rest) = some (acc ++ entriesOf F m recP e rest) ∧
+    ∀ en ∈ entriesOf F m recP e rest, en.epoch = e := by
+  constructor
+  · unfold parseBlock
+    simp only [hstar, if_true, he, Option.map_some]
+    cases rest with
+    | nil => simp [entriesOf]
+    | cons l2 more =>
+      have h2 : l2 ≠ [] := hne l2 (by simp)
+      have hempty : l2.isEmpty = false := by cases l2 <;> simp_all
+      simp only
+      by_cases hp : l2.take 1 = ['P']
+      · obtain ⟨en, hen⟩ := Option.isSome_iff_exists.mp (hok l2 (by simp) hp)
+        have hstep : stepLine F m recP (some e) true acc l2 = some (acc ++ [en]) := by
+          simp [stepLine, hp, hen, hfresh]
+        rw [hstep]
+        simp only [Option.bind_some]
+        rw [fold_stepLine F m recP e more (acc ++ [en]) (fun l' h' => hne l' (by simp [h']))
+          (fun l' h' => hok l' (by simp [h']))]
+        simp [entriesOf, hp, hen]
+      · have hstep : stepLine F m recP (some e) true acc l2 = some acc := by
+          simp [stepLine, hp, hempty]
+        rw [hstep]
+        simp only [Option.bind_some]
+        rw [fold_stepLine F m recP e more acc (fun l' h' => hne l' (by simp [h']))
+          (fun l' h' => hok l' (by simp [h']))]
+        simp [entriesOf, hp]
+  · intro en hen
+    simp only [entriesOf, List.mem_filterMap] at hen
+    obtain ⟨l, _, hl⟩ := hen
+    by_cases hp : l.take 1 = ['P']
+    · simp only [hp, if_true] at hl
+      -- `parsePosition` copies the epoch it is given
+      unfold parsePosition at hl
+      obtain ⟨t, _, ht⟩ := Option.map_eq_some_iff.mp hl
+      rw [← ht]
+    · simp [hp] at hl
+
+/-! ## 4. Header -/
+
+/-- **first occurrence wins** for `%c` (the continuation line's file type is `cc`) and for `%f` (the
+base is already known) -/
+theorem header_first_wins :
+    let lines := ["%c M  cc GPS ccc cccc cccc cccc cccc ccccc ccccc ccccc ccccc",
+                  "%c cc cc ccc ccc cccc cccc cccc cccc ccccc ccccc ccccc ccccc",
+                  "%f  1.2500000  1.025000000  0.00000000000  0.000000000000000",
+                  "%f  0.0000000  0.000000000  0.00000000000  0.000000000000000"].map String.toList
+    lines.foldlM (headerLine headerDefs) [] =
+      some [("file_type", .str ['M']), ("time_sys", .str "GPS".toList), ("base_posvel", .num 1.25),
+            ("base_clkrate", .num 1.025)] := by
+  decide +kernel
+
+/-- **header_fields**: a `#c`/`#d`, `##`, `%c` line delivers each field as the stripped text of its
+standard columns — whatever clean texts are printed there -/
+theorem header_fields (d : HeaderDef) (hd : d ∈ headerDefs) (cells : List (Align × Str))
+    (hf : Fits d.fields cells = true) :
+    (sliceAll d.fields (renderA d.fields cells)).map (·.2) = cells.map (·.2) := by
+  have hs : Sorted d.fields = true := by
+    have := layouts_sorted.2.2
+    rw [List.all_eq_true] at this
+    exact this d hd
+  exact sliceAll_renderA d.fields cells hs hf
+
+/-! ## 5. Dataset epoch -/
+
+/-- **dataset_epoch**: the epoch `as_dataset` builds (whole seconds + the 7-digit fraction as a
+fraction of a second) is exactly the file's epoch — in particular within 10⁻⁷ s -/
+theorem dataset_epoch (e : Epoch) : datasetSeconds e = fileSeconds e := by
+  unfold datasetSeconds fileSeconds
+  have h : e.sec7 = 10000000 * (e.sec7 / 10000000) + e.sec7 % 10000000 := by omega
+  have hq : ((e.sec7 : Int) : Rat) = (10000000 : Rat) * ((e.sec7 / 10000000 : Int) : Rat) + ((e.sec7 % 10000000 : Int) : Rat) := by
+    conv => lhs; rw [h]
+    simp [Rat.intCast_add, Rat.intCast_mul]
+  simp only [Rat.intCast_add]
+  rw [hq]
+  grind
+
 end Midgard.Props.C13
 
 #print axioms Midgard.Props.C13.layouts_sorted
+#print axioms Midgard.Props.C13.cols_eq_spec
+#print axioms Midgard.Props.C13.unit_factors
+#print axioms Midgard.Props.C13.powCode_nat
+#print axioms Midgard.Props.C13.sigma_blank
+#print axioms Midgard.Props.C13.sigma_code
+#print axioms Midgard.Props.C13.pos_record
+#print axioms Midgard.Props.C13.fold_stepLine
+#print axioms Midgard.Props.C13.block_entries
+#print axioms Midgard.Props.C13.header_first_wins
+#print axioms Midgard.Props.C13.header_fields
+#print axioms Midgard.Props.C13.dataset_epoch
